@@ -207,6 +207,11 @@ func (c *cg) expr(e ast.Expr) string {
 func (c *cg) ret(r *ast.ReturnStmt) string {
 	switch c.s.mode {
 	case "err":
+		if len(r.Results) == 1 {
+			if _, ok := r.Results[0].(*ast.CallExpr); ok {
+				return c.expr(r.Results[0]) // `return f(x)` with f yielding (T, error)
+			}
+		}
 		if len(r.Results) != 2 {
 			return c.fail("return with %d results", len(r.Results))
 		}
@@ -256,6 +261,16 @@ func (c *cg) stmts(list []ast.Stmt, k func(ind string) string, ind string) strin
 	case *ast.ReturnStmt:
 		return ind + c.ret(s)
 	case *ast.AssignStmt:
+		// `x, err := call; return f(x), err`: the call's result with f applied to the value
+		if len(s.Lhs) == 2 && len(s.Rhs) == 1 && exprText(s.Lhs[1]) == "err" && len(list) == 2 && c.s.mode == "err" {
+			if ret, ok := list[1].(*ast.ReturnStmt); ok && len(ret.Results) == 2 && exprText(ret.Results[1]) == "err" {
+				if x, ok := s.Lhs[0].(*ast.Ident); ok {
+					call := c.expr(s.Rhs[0])
+					c.s.locals[x.Name] = true
+					return ind + "match " + call + " with\n" + ind + "| .error err => (Except.error err)\n" + ind + "| .ok " + leanIdent(x.Name) + " => (Except.ok " + c.expr(ret.Results[0]) + ")"
+				}
+			}
+		}
 		// `x, err := call` followed by `if err != nil { ... }`: a match on the call's result
 		if len(s.Lhs) == 2 && len(s.Rhs) == 1 && exprText(s.Lhs[1]) == "err" && len(list) > 1 {
 			if ifs, ok := list[1].(*ast.IfStmt); ok && ifs.Init == nil && ifs.Else == nil && exprText(ifs.Cond) == "err != nil" {
@@ -317,6 +332,20 @@ func (c *cg) stmts(list []ast.Stmt, k func(ind string) string, ind string) strin
 				name = leanIdent(x.Name) // scoped to the if statement in Go; not used after it
 			}
 			return ind + "match " + call + " with\n" + ind + "| .error err =>\n" + errT + "\n" + ind + "| .ok " + name + " =>\n" + rest(ind+"  ")
+		}
+		// `if v, ok := m[k]; ok { ... }`: a match on the lookup
+		if a, ok := s.Init.(*ast.AssignStmt); ok && len(a.Lhs) == 2 && len(a.Rhs) == 1 && s.Else == nil {
+			if ix, isIx := a.Rhs[0].(*ast.IndexExpr); isIx && exprText(s.Cond) == exprText(a.Lhs[1]) {
+				v, ok := a.Lhs[0].(*ast.Ident)
+				look, ok2 := c.s.calls["index"]
+				if !ok || !ok2 {
+					return ind + c.fail("map lookup")
+				}
+				call := "(" + look + " " + c.expr(ix.X) + " " + c.expr(ix.Index) + ")"
+				c.s.locals[v.Name] = true
+				thenT := c.stmts(s.Body.List, rest, ind+"  ")
+				return ind + "match " + call + " with\n" + ind + "| some " + leanIdent(v.Name) + " =>\n" + thenT + "\n" + ind + "| none =>\n" + rest(ind+"  ")
+			}
 		}
 		pre := ""
 		if s.Init != nil {
@@ -420,7 +449,27 @@ func translate(repo string, s *fnSpec) (string, error) {
 	}
 	s.locals = map[string]bool{}
 	c := &cg{s: s}
-	body := c.stmts(fd.Body.List, nil, "  ")
+	var body string
+	if s.mode == "void" {
+		// a method that only updates its receiver map: `m[k] = v`, or a call of another such method
+		if len(fd.Body.List) != 1 {
+			return "", fmt.Errorf("%s.%s (%s): body is not a single statement", s.recv, s.name, s.file)
+		}
+		switch st := fd.Body.List[0].(type) {
+		case *ast.AssignStmt:
+			ix, ok := st.Lhs[0].(*ast.IndexExpr)
+			if !ok || len(st.Lhs) != 1 || len(st.Rhs) != 1 || st.Tok != token.ASSIGN {
+				return "", fmt.Errorf("%s.%s (%s): not a map assignment", s.recv, s.name, s.file)
+			}
+			body = "  (" + s.calls["assign"] + " " + c.expr(ix.X) + " " + c.expr(ix.Index) + " " + c.expr(st.Rhs[0]) + ")"
+		case *ast.ExprStmt:
+			body = "  " + c.expr(st.X)
+		default:
+			return "", fmt.Errorf("%s.%s (%s): statement of kind %T", s.recv, s.name, s.file, st)
+		}
+	} else {
+		body = c.stmts(fd.Body.List, nil, "  ")
+	}
 	if c.err != nil {
 		return "", c.err
 	}
@@ -466,6 +515,18 @@ func pfSpec(recv, lean, binders string, exprs map[string]string) *fnSpec {
 			"optlit:plugin_go.CodeGeneratorResponse_File": "RespFile.mk Name InsertionPoint Content"}}
 }
 
+func parSpec(name, lean, binders, ret, mode string) *fnSpec {
+	return &fnSpec{file: "parameters.go", recv: "Parameters", name: name, lean: lean, binders: binders, ret: ret, mode: mode,
+		exprs: map[string]string{"p": "p", "name": "name", "def": "def_", "s": "s", "i": "i", "ui": "ui", "b": "b", "path": "path",
+			"outputPathKey": "Pgs.Generated.outputPathKey", "strconv.IntSize": "64", "0": "0"},
+		calls: map[string]string{"index": "Pgs.C19.get", "assign": "Pgs.C19.set",
+			"p.StrDefault": "parameters_StrDefault p", "p.SetStr": "parameters_SetStr p", "p.IntDefault": "parameters_IntDefault p",
+			"p.UintDefault": "parameters_UintDefault p", "p.BoolDefault": "parameters_BoolDefault p",
+			"strconv.Atoi": "atoi", "strconv.Itoa": "Pgs.C19.formatInt", "strconv.ParseUint": "parseUintE", "strconv.FormatUint": "formatUintB",
+			"strconv.ParseBool": "parseBoolE", "strconv.FormatBool": "Pgs.C19.formatBool", "strings.TrimSpace": "trimSpaceB",
+			"uint": "id", "uint64": "id"}}
+}
+
 func codeSpecs() []*fnSpec {
 	return []*fnSpec{
 		// C11
@@ -482,6 +543,21 @@ func codeSpecs() []*fnSpec {
 		pfSpec("GeneratorTemplateAppend", "generatorTemplateAppend_ProtoFile", "(fileName : Pgs.Bytes) (render : Except Pgs.Bytes Pgs.Bytes)", map[string]string{"f.FileName": "fileName", "f.render()": "render"}),
 		pfSpec("GeneratorInjection", "generatorInjection_ProtoFile", "(fileName insertionPoint contents : Pgs.Bytes)", map[string]string{"f.FileName": "fileName", "f.InsertionPoint": "insertionPoint", "f.Contents": "contents"}),
 		pfSpec("GeneratorTemplateInjection", "generatorTemplateInjection_ProtoFile", "(fileName insertionPoint : Pgs.Bytes) (render : Except Pgs.Bytes Pgs.Bytes)", map[string]string{"f.FileName": "fileName", "f.InsertionPoint": "insertionPoint", "f.render()": "render"}),
+		// C19: the accessors of Parameters
+		parSpec("StrDefault", "parameters_StrDefault", "(p : Pgs.C19.Map) (name def_ : Pgs.Bytes)", "Pgs.Bytes", ""),
+		parSpec("Str", "parameters_Str", "(p : Pgs.C19.Map) (name : Pgs.Bytes)", "Pgs.Bytes", ""),
+		parSpec("SetStr", "parameters_SetStr", "(p : Pgs.C19.Map) (name s : Pgs.Bytes)", "Pgs.C19.Map", "void"),
+		parSpec("OutputPath", "parameters_OutputPath", "(p : Pgs.C19.Map)", "Pgs.Bytes", ""),
+		parSpec("SetOutputPath", "parameters_SetOutputPath", "(p : Pgs.C19.Map) (path : Pgs.Bytes)", "Pgs.C19.Map", "void"),
+		parSpec("IntDefault", "parameters_IntDefault", "(p : Pgs.C19.Map) (name : Pgs.Bytes) (def_ : Int)", "Except Pgs.Bytes Int", "err"),
+		parSpec("Int", "parameters_Int", "(p : Pgs.C19.Map) (name : Pgs.Bytes)", "Except Pgs.Bytes Int", "err"),
+		parSpec("SetInt", "parameters_SetInt", "(p : Pgs.C19.Map) (name : Pgs.Bytes) (i : Int)", "Pgs.C19.Map", "void"),
+		parSpec("UintDefault", "parameters_UintDefault", "(p : Pgs.C19.Map) (name : Pgs.Bytes) (def_ : Nat)", "Except Pgs.Bytes Nat", "err"),
+		parSpec("Uint", "parameters_Uint", "(p : Pgs.C19.Map) (name : Pgs.Bytes)", "Except Pgs.Bytes Nat", "err"),
+		parSpec("SetUint", "parameters_SetUint", "(p : Pgs.C19.Map) (name : Pgs.Bytes) (ui : Nat)", "Pgs.C19.Map", "void"),
+		parSpec("BoolDefault", "parameters_BoolDefault", "(p : Pgs.C19.Map) (name : Pgs.Bytes) (def_ : Bool)", "Except Pgs.Bytes Bool", "err"),
+		parSpec("Bool", "parameters_Bool", "(p : Pgs.C19.Map) (name : Pgs.Bytes)", "Except Pgs.Bytes Bool", "err"),
+		parSpec("SetBool", "parameters_SetBool", "(p : Pgs.C19.Map) (name : Pgs.Bytes) (b : Bool)", "Pgs.C19.Map", "void"),
 		// C09
 		{file: "proto.go", recv: "Syntax", name: "SupportsRequiredPrefix", lean: "syntax_SupportsRequiredPrefix", binders: "(s : Pgs.Bytes)", ret: "Bool",
 			exprs: map[string]string{"s": "s", "Proto2": "Pgs.Generated.syntaxProto2"}},
@@ -747,7 +823,7 @@ func typePredicates(repo string) (string, error) {
 
 func genCode(repo string) (string, error) {
 	var b strings.Builder
-	b.WriteString("import PgsVerif.Model.FilePath\nimport PgsVerif.Model.Context\nimport PgsVerif.Generated.Tables\n")
+	b.WriteString("import PgsVerif.Model.FilePath\nimport PgsVerif.Model.Context\nimport PgsVerif.Model.Params\nimport PgsVerif.Generated.Tables\n")
 	b.WriteString("/- GENERATED by harness/cmd/factgen (codegen.go) from the current source of protoc-gen-star. Do not edit:\n")
 	b.WriteString("   regenerated (and overwritten) on every run of ./check and of setup.sh. -/\n")
 	b.WriteString("set_option linter.unusedVariables false\nnamespace Pgs.GenCode\n\n")
@@ -763,6 +839,13 @@ func genCode(repo string) (string, error) {
 	b.WriteString("structure TypeEnv where\n  isMap : Bool\n  isRepeated : Bool\n  isEmbed : Bool\n  isEnum : Bool\n  keyScalar : Pgs.Bytes\n  elType : Pgs.Bytes\n  embedName : Pgs.Bytes\n  enumName : Pgs.Bytes\n  scalar : Pgs.Bytes\n  hasPresence : Bool\n")
 	b.WriteString("structure ElemEnv where\n  isEnum : Bool\n  isEmbed : Bool\n  enumName : Pgs.Bytes\n  embedName : Pgs.Bytes\n  scalar : Pgs.Bytes\n\n")
 	b.WriteString("def toSlashUnix (p : Pgs.Bytes) : Pgs.Bytes := p\n")
+	b.WriteString("/-- strconv / strings, in terms of the model's codecs (errors carry no information the properties use) -/\n")
+	b.WriteString("def optE {α : Type} (o : Option α) : Except Pgs.Bytes α := match o with | some v => .ok v | none => .error [101]\n")
+	b.WriteString("def atoi (s : Pgs.Bytes) : Except Pgs.Bytes Int := optE (Pgs.C19.parseInt s)\n")
+	b.WriteString("def parseUintE (s : Pgs.Bytes) (base bits : Nat) : Except Pgs.Bytes Nat := if base == 10 && bits == 64 then optE (Pgs.C19.parseUint s) else .error [98]\n")
+	b.WriteString("def formatUintB (n base : Nat) : Pgs.Bytes := if base == 10 then Pgs.C19.formatNat n else []\n")
+	b.WriteString("def parseBoolE (s : Pgs.Bytes) : Except Pgs.Bytes Bool := optE (Pgs.C19.parseBool s)\n")
+	b.WriteString("def trimSpaceB (s : Pgs.Bytes) : Pgs.Bytes := ((s.dropWhile Pgs.C19.isSpaceB).reverse.dropWhile Pgs.C19.isSpaceB).reverse\n")
 	b.WriteString("/-- plugin_go.CodeGeneratorResponse_File -/\n")
 	b.WriteString("structure RespFile where\n  name : Option Pgs.Bytes\n  insertionPoint : Option Pgs.Bytes\n  content : Option Pgs.Bytes\n")
 	b.WriteString("/-- the struct literals of build_context.go: a prefixContext is (parent, debugger); the debugger is the list of its prefixes -/\n")
